@@ -92,6 +92,17 @@ class Index:
     def equals(self, o):
         return self is o or (isinstance(o, Index) and self.arr is o.arr)
 
+    def searchsorted(self, value, side="left", sorter=None):
+        return snp.searchsorted(self.arr, value, side, sorter)
+
+    def isin(self, values):
+        return snp.isin(self.arr, _arr(values))
+
+    @property
+    def is_unique(self):
+        xs = list(self.arr.a)
+        return not any(_label_eq(a, b) for i, a in enumerate(xs) for b in xs[i + 1:])
+
     def _cmp(self, o, op):
         if isinstance(o, (Series,)):
             return NotImplemented
